@@ -14,6 +14,9 @@ package types
 
 //@ func (BridgeConfig) ValidateWithNoAddrValidation
 //@   ensures err == nil ==> config.FinalizationPeriod > 0                                        // C05: period_positive
+//@   assumes forall k int32 :: BatchInfo_ChainType_name[k] != None <==> (k == 0 || k == 1 || k == 2)     // the generated enum name table of types.pb.go
+//@   ensures len(config.Proposer) > 0 && len(config.Challenger) > 0 && (config.BatchInfo.ChainType == 1 || config.BatchInfo.ChainType == 2) && len(config.BatchInfo.Submitter) > 0
+//@        && config.FinalizationPeriod > 0 && config.SubmissionInterval != 0 && config.SubmissionStartHeight != 0 ==> err == nil           // C16: accepts_every_well_formed_config_whatever_the_address_format
 
 //@ func GenerateOutputRoot
 //@   requires len(storageRoot) >= 32 && len(latestBlockHash) >= 32
